@@ -189,6 +189,9 @@ def path_cfg(rng, qcd=None, qed=0, nf_pairs=None, max_targets=1, methods=None, p
     ratios = [float(x) for x in rng.choice([0.7, 1.0, 1.0, 1.5, 2.0], size=3)]
     masses = [DEFAULT_MASSES[0] * float(rng.uniform(0.9, 1.2)), DEFAULT_MASSES[1] * float(rng.uniform(0.9, 1.1)), float(rng.choice([172.5, 60.0, 30.0]))]
     walls = [m * r for m, r in zip(masses, ratios)]  # linear scales
+    if not (walls[0] * 1.1 < walls[1] and walls[1] * 1.1 < walls[2]):
+        ratios = [1.0, 1.0, 1.0]
+        walls = list(masses)
     bounds = [1.25] + walls + [400.0]
 
     def scale_in_patch(nf):
